@@ -119,6 +119,7 @@ def main(argv=None):
     shutil.rmtree(scratch, ignore_errors=True)
     os.makedirs(scratch)
     prune_numba_cache()
+    warm(prop, tier)
     procs = run_workers(prop, tier, vseed, n, W, cap, scratch)
     ndet = min(3, n)
     det = run_workers(prop, tier, vseed, n, 1, cap, scratch, hashseed='4242', indices=list(range(ndet)), tag='det')
@@ -280,6 +281,29 @@ def main(argv=None):
         print('HARNESS-ERROR only %d of %d runs reported' % (evaluations, n))
         return 2
     return 0
+
+
+WARM_KINDS = {'C01': 'anova,tbuild,ttacc,mia', 'C11': 'anova,tbuild,ttacc,mia', 'C16': 'anova,tbuild,ttacc,mia', 'C02': 'anova,mia', 'C08': 'anova,mia,tbuild',
+              'C14': 'tbuild', 'C09': 'ttacc', 'C20': ''}
+
+
+def warm(prop, tier):
+    """Compile the numba signatures once (per tree hash) before 16 workers would each do it."""
+    kinds_ = WARM_KINDS.get(prop, '')
+    if not kinds_:
+        return
+    e = env.child_env({'NUMBA_NUM_THREADS': '16'})
+    full = tier == 'thorough' and prop in ('C01', 'C11', 'C16', 'C09', 'C02', 'C08')
+    marker = os.path.join(e['NUMBA_CACHE_DIR'], 'warm-%s-%s' % (kinds_.replace(',', '_'), 'full' if full else 'quick'))
+    if os.path.exists(marker):
+        return
+    t0 = time.time()
+    cmd = [PY, os.path.join(VERIF, 'tools', 'warm.py'), '--kinds', kinds_] + (['--full'] if full else [])
+    subprocess.run(cmd, env=e, cwd=VERIF, stdout=subprocess.DEVNULL, stderr=subprocess.DEVNULL, timeout=1800)
+    os.makedirs(e['NUMBA_CACHE_DIR'], exist_ok=True)
+    open(marker, 'w').write('ok')
+    print('numba cache warmed for this tree in %.0fs' % (time.time() - t0))
+    sys.stdout.flush()
 
 
 def prune_numba_cache(keep=3):
